@@ -131,7 +131,9 @@ func cacheConc(args []string) error {
 		return err
 	}
 	seed := seedFromEnv()
-	if o, err := cache.WithLatencyWindows([]string{"2s", "4s"}, 2*time.Second); err == nil {
+	// windows of a few milliseconds: within a scenario they get covered, slide and export (with windows of seconds
+	// the refresh never gets past the initial-coverage test and the export code is not executed at all)
+	if o, err := cache.WithLatencyWindows([]string{"2ms", "4ms"}, 2*time.Millisecond); err == nil {
 		cacheConcLatOpt = o
 	}
 	// one cache at a time, as in the collector: creating a cache registers metadata names in
